@@ -5,13 +5,25 @@
 (*                                                                         *)
 (* A design descriptor X (JSON, written by harness/c02_cl.py from the same  *)
 (* object that is pretty-printed as pymtl3 source):                         *)
-(*   X.blocks  : Seq([name, once: BOOLEAN, ext: BOOLEAN, calls: Seq(method),*)
+(*   X.blocks  : Seq([name, once: BOOLEAN, ext: BOOLEAN, gl: BOOLEAN,       *)
+(*                    net: BOOLEAN, calls: Seq(method),                     *)
 (*                    rd: Seq(sig), wr: Seq(sig)])                          *)
 (*       calls = the ACTUAL methods one execution of the block invokes, in  *)
 (*       program order (the method at the end of the method net a caller    *)
 (*       port is connected to; a pass-through method invokes its target).   *)
 (*       ext = TRUE: not a block of the design but "the test bench calls    *)
 (*       this top-level callee method" (open loop only).                    *)
+(*       gl = TRUE: the block calls a blocking method (@blocking /          *)
+(*       CalleeIfcFL / CallerIfcFL) itself; the simulator runs it inside a  *)
+(*       greenlet behind a ticker function that takes the block's place in  *)
+(*       the schedule.  The wrapping is TRANSPARENT for the order: every    *)
+(*       constraint on the block is a constraint on its ticker, the ticker  *)
+(*       runs the block body where it stands.  Every blocking method of a   *)
+(*       descriptor returns immediately, so one call of the ticker is one   *)
+(*       complete execution of the block (action Ticker below = Start of a  *)
+(*       gl block; no suspended bodies in this model).                      *)
+(*       net = TRUE: a net-propagation step (signals wr are connected to    *)
+(*       signal rd): a step like a plain update block, no calls.            *)
 (*   X.methods : Seq([name])                                                *)
 (*   X.mm : M(x) <  M(y)    X.eq : M(x) == M(y)                             *)
 (*   X.um : U(b) <  M(x)    X.mu : M(x) <  U(b)     X.uu : U(a) < U(b)      *)
@@ -243,9 +255,14 @@ OLCall     == /\ mode = "ol" /\ pend # 0 /\ j < Slot(pend)
               /\ j' = Slot(pend) /\ pend' = 0 /\ UNCHANGED <<d, mode, cur, pc, sch, ncall>>
 OLStop     == mode = "ol" /\ pend = 0 /\ ncall = Input.maxcalls /\ UNCHANGED vars
 
-SomeStart   == \E b \in AllBlocks(D) : Start(b)
+\* the three kinds of steps a schedule holds; Start is the same for all of them (named apart so that the
+\* coverage of a model check says whether tickers and net steps were exercised)
+SomeStart   == \E b \in AllBlocks(D) : ~D.blocks[b].gl /\ ~D.blocks[b].net /\ Start(b)
+Ticker      == \E b \in AllBlocks(D) : D.blocks[b].gl /\ Start(b)     \* greenlet ticker: runs the body in place
+NetStep     == \E b \in AllBlocks(D) : D.blocks[b].net /\ Start(b)
 SomeOLBegin == \E m \in AllBlocks(D) : OLBegin(m)
-Next == SomeStart \/ Invoke \/ End \/ Reject \/ Done \/ SomeOLBegin \/ OLWrap \/ OLCall \/ OLStop
+Next == SomeStart \/ Ticker \/ NetStep \/ Invoke \/ End \/ Reject \/ Done
+        \/ SomeOLBegin \/ OLWrap \/ OLCall \/ OLStop
 Spec == Init /\ [][Next]_vars
 
 ---------------------------------------------------------------------------
@@ -262,6 +279,12 @@ RejectedOnlyIfMust == mode = "rejected" => MustReject(d, FALSE)
 CyclicIsMustReject == Cyclic(d, FALSE) => MustReject(d, FALSE)
 \* (with CHECK_DEADLOCK: an acyclic design can always be scheduled to completion)
 ---------------------------------------------------------------------------
+\* well-formed descriptors: a wrapped block is an update_once block of the design, a net step calls nothing
+DescOK(X) == \A b \in DOMAIN X.blocks :
+                /\ X.blocks[b].gl  => (X.blocks[b].once /\ ~X.blocks[b].ext /\ ~X.blocks[b].net /\ X.blocks[b].calls # <<>>)
+                /\ X.blocks[b].net => (~X.blocks[b].once /\ ~X.blocks[b].ext /\ X.blocks[b].calls = <<>>
+                                       /\ Len(X.blocks[b].rd) = 1 /\ X.blocks[b].wr # <<>>)
+ASSUME \A i \in DI : DescOK(Designs[i])
 \* classification of a corpus for the harness (cfg: INIT ClassifyInit / NEXT ClassifyNext): which designs
 \* every scheduler must refuse, the derived relation (closed loop, transitively closed), and whether some
 \* block is constrained against a method it invokes itself
